@@ -96,7 +96,8 @@ class MStream:
 def run_history(fx, vclock, rec, r, cfg, nsteps, hh):
     P = fx.P
     d = fx.daemon
-    pay = {"cfg": cfg, "steps": []}
+    r = r if isinstance(r, gen.TapeRNG) else gen.TapeRNG(base=r)
+    pay = {"cfg": cfg, "steps": [], "tape": r.tape, "nsteps": nsteps, "clock0": vclock.now}
     nprox = r.randrange(1, 4)
     proxies = []
     conns = []
@@ -357,4 +358,21 @@ def run_shard(shard, rec):
 
 
 def replay(payload, rec):
-    rec.inconc("replay of C10 histories re-runs the shard generator: use VERIF_SEED and the shard descriptor in the replay file")
+    P = fixture.pyro()
+    cfg = payload["cfg"]
+    vclock = VClock()
+    vclock.now = payload.get("clock0", 1e9)
+    import Pyro5.server
+    Pyro5.server.time = vclock
+    fx = fixture.Fixture(servertype=cfg["servertype"], COMMTIMEOUT=0.0, ITER_STREAMING=cfg["streaming"], ITER_STREAM_LIFETIME=float(cfg["lifetime"]),
+                         ITER_STREAM_LINGER=float(cfg["linger"]), THREADPOOL_SIZE=20)
+    try:
+        fx.register(make_service(P), "src")
+        for i, s in enumerate(payload["steps"]):
+            print("recorded step", i, s)
+        try:
+            run_history(fx, vclock, rec, gen.TapeRNG(tape=payload["tape"]), cfg, payload["nsteps"], "replay")
+        except IndexError:
+            print("replay: the recorded prefix of the history was re-executed without a violation")
+    finally:
+        fx.stop()
